@@ -137,7 +137,9 @@ def reader_sequence(fn):
                 if se.k == 'bin' and se.op == '=':
                     lhs, rhs = pstr(se.a[0], subst), pstr(se.a[1], subst)
                     for i in range(len(out) - 1, -1, -1):
-                        if out[i][0] == 'ci' and out[i][1] == rhs and CANON.get(rhs, rhs) is None:
+                        # a scratch local (listed as such, or any plain identifier): named after the field it is stored in
+                        if out[i][0] == 'ci' and out[i][1] == rhs and (CANON.get(rhs, rhs) is None or (
+                                rhs.replace('_', 'a').isalnum() and ('->' in lhs or '.' in lhs))):
                             out[i] = ('ci', lhs)
                             break
 
